@@ -35,7 +35,7 @@ EXTENDS CffCodec, Json
 
 CONSTANT Thorough
 
-\* `done`: the case is picked by the one step of the behaviour, not by Init.  TLC computes initial states (and
+\* `done`: the case is picked by a step of the behaviour, not by Init.  TLC computes initial states (and
 \* checks the invariants on them) in its main thread, single-threaded and with the small default stack of that
 \* thread (-Xss given through JAVA_TOOL_OPTIONS does not reach it): under load the 64 KiB DICT values overflowed
 \* it now and then.  Successor states are evaluated by the worker threads: in parallel, with the stack -Xss asks for.
@@ -640,9 +640,12 @@ Vals(k) ==
     [] k = "ivs" -> IvsVals \o IvsPos [] k = "ivd" -> IvdVals [] k = "ivr" -> IvrVals [] k = "cfft" -> CfftVals
 NVals == [i \in 1 .. Len(Kinds) |-> Len(Vals(Kinds[i]))]
 
-Init == kind = "" /\ idx = 0 /\ done = FALSE
-Next == /\ ~done /\ done' = TRUE
-        /\ \E i \in 1 .. Len(Kinds) : kind' = Kinds[i] /\ idx' \in 1 .. NVals[i]
+\* two steps: the first enumerates the cases (cheap, one worker), the second is taken for every case by whichever
+\* worker dequeues it, and the invariants - all the work - are evaluated on the state it leads to
+Init == kind = "" /\ idx = 0 /\ done = 0
+Next == \/ /\ done = 0 /\ done' = 1
+           /\ \E i \in 1 .. Len(Kinds) : kind' = Kinds[i] /\ idx' \in 1 .. NVals[i]
+        \/ /\ done = 1 /\ done' = 2 /\ UNCHANGED <<kind, idx>>
 Spec == Init /\ [][Next]_vars
 
 V == Vals(kind)[idx]
@@ -706,7 +709,7 @@ Case ==
   ELSE \* ivs
     [k |-> kind, id |-> idx, v |-> v, src |-> EncIVS(v), exp |-> OkExp(EncIVS(v), v)]
 
-EmitCase == done => PrintT(<<"CASE", ToJson(Case)>>)
+EmitCase == done = 2 => PrintT(<<"CASE", ToJson(Case)>>)
 
 ---------------------------------------------------------------------------
 \* laws of the specification itself
@@ -779,7 +782,7 @@ PackedOKc(v) ==
   /\ EncGlyph(NormGlyph(v)) = EncGlyph(v)
 
 CodecOK ==
-  done =>
+  done = 2 =>
   IF kind \in TableKinds THEN TableOK(kind, V)
   ELSE IF kind = "glyphp" THEN PackedOKc(V)
   ELSE IF kind = "cffint" THEN IntOK(V)
